@@ -53,6 +53,15 @@ fn scenario(pr: &Params) -> Verdict {
             } else {
                 vec![vec![], format!("p{}m{}", p, j).into_bytes()]
             };
+            // the peer's last message ends with an empty frame (the last bytes the connection carries are the
+            // header of a zero-length frame)
+            let m = if j + 1 == pr.msgs {
+                let mut m = m;
+                m.push(vec![]);
+                m
+            } else {
+                m
+            };
             c.send(&rc::encode_message(&m));
             mine.push(m);
         }
